@@ -78,10 +78,54 @@ def gen_json_value(rng, depth=0):
         return [gen_json_value(rng, depth + 1)
                 for _ in range(rng.randint(0, 3))]
     else:
-        return gen_metadata(rng, depth + 1, allow_empty=True)
+        return _gen_metadata(rng, depth + 1, allow_empty=True)
+
+
+def retype(v):
+    """A JSON value that is == to v under Python's equality but not the same
+    document (1 <-> True, 2 <-> 2.0)."""
+    if isinstance(v, bool):
+        return int(v)
+    elif isinstance(v, int):
+        return bool(v) if v in (0, 1) else float(v)
+    elif isinstance(v, float) and v == int(v) and abs(v) < 1e15:
+        return int(v)
+    elif isinstance(v, dict):
+        return {k: retype(x) for k, x in v.items()}
+    elif isinstance(v, list):
+        return [retype(x) for x in v]
+
+    return v
+
+
+_LAST_MD = [None]
+
+
+def reset_state():
+    """Generators keep a little state *within* one scenario (the previous
+    metadata); it must never leak from one scenario into the next."""
+    _LAST_MD[0] = None
 
 
 def gen_metadata(rng, depth=0, allow_empty=False):
+    if depth == 0 and not allow_empty:
+        md = _gen_metadata(rng, depth, allow_empty)
+        k = rng.below(12)
+
+        if k == 0 and _LAST_MD[0] is not None:
+            md = retype(_LAST_MD[0])        # == the previous one, other types
+        elif k == 1 and _LAST_MD[0] is not None:
+            md = json.loads(json.dumps(_LAST_MD[0]))    # the same again
+        elif k == 2:
+            md = {'revision': 1, 'ok': True, 'ratio': 2.0, 'n': 0}
+
+        _LAST_MD[0] = md
+        return md
+
+    return _gen_metadata(rng, depth, allow_empty)
+
+
+def _gen_metadata(rng, depth=0, allow_empty=False):
     d = {}
     n = rng.randint(0 if allow_empty else 1, 3)
 
@@ -297,6 +341,9 @@ def gen_foreign(rng, pool=None, shuffle=True, blanks=True, crlf=None,
         if blanks and sections and rng.chance(0.15):
             blank = rng.randint(1, 3)
 
+            if rng.chance(0.1):
+                blank = rng.choice([47, 48, 49, 95, 96, 97, 200])
+
         sections.append({'blank': blank, 'head': head,
                          'body_hex': body.hex()})
 
@@ -315,6 +362,12 @@ def gen_foreign(rng, pool=None, shuffle=True, blanks=True, crlf=None,
         if name == 'preamble':
             t = gen_text(rng, eff, 40 if big else 8)
             raw = t.encode(eff or 'ascii')
+
+            if eff is None and rng.chance(0.3):
+                # no encoding anywhere: "8-bit binary data" (spec) - bytes
+                # that are text in *some* encoding the producer knew
+                raw = gen_text(rng, 'utf-8', 6).encode(
+                    rng.choice(['utf-8', 'latin-1']), 'replace')
 
             if rng.chance(0.3):
                 opts.append(('mimetype',
@@ -463,7 +516,11 @@ def gen_base_file(rng, max_changes=2, max_files=2, big=False, p_writer=0.5):
 UNKNOWN_KEYS = ['x', 'X-y', 'my-option', 'another_option', 'length2', 'len',
                 'lengthx', 'Length', 'LENGTH', 'encodingx', 'enc', 'indent2',
                 'line-endings', 'line_ending', 'formats', 'vers', 'typ',
-                'mime', 'a', 'z9', 'k_', 'k-', 'pad']
+                'mime', 'a', 'z9', 'k_', 'k-', 'pad', 'self', 'keep_bytes',
+                'preserve_trailing_newline', 'fp', 'cls', 'options', 'section',
+                'content', 'data', 'kwargs', 'args', 'newline', 'lines',
+                'level', 'line', 'text', 'metadata', 'diff', 'Indent',
+                'Encoding', 'Format', 'LINE_ENDINGS', 'Version', 'TYPE']
 UNKNOWN_VALUES = ['v', 'value', '1', '0', '-1', '42', '007', '-0', '1.0',
                   '1.5', 'abc', '/', '/x', './a', '-', '.', '_', 'a/b.c-d_e',
                   'utf-8', 'dos', 'json', 'text/plain', '99999999999999999999',
@@ -474,3 +531,11 @@ def int_corner(v):
     """Values on which Python's int() and the integer grammar -?[0-9]+
     disagree (stay out of the corner)."""
     return '_' in v and v.replace('_', '').lstrip('-').isdigit()
+
+
+def gen_stream(rng):
+    """(stream kind, buffer size): the plain sim handle, a real io.BytesIO,
+    or a real io.BufferedReader over a raw sim stream (drawn buffer size)."""
+    kind = rng.weighted([(6, 'sim'), (2, 'bytesio'), (2, 'buffered')])
+    return kind, (rng.choice([1, 2, 7, 64, 512, 8192])
+                  if kind == 'buffered' else None)
